@@ -154,15 +154,15 @@ def r3(ctx: RuleCtx) -> None:
 
 
 def _r3_replay_only(ctx: RuleCtx) -> None:
-    from .c02_model import NodeModel
+    from .c02_model import NodeModel, model_for
     from . import c02_printer as cp
-    cp.check_replay(ctx, NodeModel(ctx.repo))
+    cp.check_replay(ctx, model_for(ctx.repo))
 
 
 def _r3_core(ctx: RuleCtx) -> None:
-    from .c02_model import NodeModel
+    from .c02_model import NodeModel, model_for
     from . import c02_printer as cp
-    model = NodeModel(ctx.repo)
+    model = model_for(ctx.repo)
     cp.check_replay(ctx, model)
     bool_map, strip = cp.lexer_facts(ctx, model)
     ctx.note(f'parser: keyword -> constant per class {bool_map}; lexer: characters stripped per string token {strip}')
